@@ -653,6 +653,43 @@ Example C02_atomic_example :
   /\ xafter_a ex_xobs (xinit ex_xobs) [xc1; xc2; xc3; xc4; xc5; xc6] = xs5.
 Proof. exact ex_atomic_instance. Qed.
 
+(* A switching call that also names a criterion of the THIRD dimension (default reset): the call changes the window
+   and carries a product criterion, or changes the subarray and carries a channel criterion - then all three
+   dimensions start afresh: each mask is the base of the new window / subarray ANDed with this call's criteria of
+   that dimension, whatever was selected before (the old products / channels are NOT ANDed in). *)
+Theorem C02_switching_call_with_third_dimension : forall xo s xkw s', has_windows xo -> xreach_a xo s ->
+  NoDup (map fst xkw) -> xselect_a xo s xkw = (OOk, s') ->
+  let kw := elab_kw (x_vocab xo) xkw in
+  let o := view_at xo (x_spw s') (x_sub s') in
+  lookup "reset" kw = None ->
+  (x_spw s' <> x_spw s /\ hits kw (doc_group DB) = true) \/ (x_sub s' <> x_sub s /\ hits kw (doc_group DF) = true) ->
+  forall d, mget d (x_core s') = fold_left mand (spec_crit_masks o d kw) (xbase xo o (x_spw s') (x_sub s') d).
+Proof. intros xo s xkw s' H R. apply switch_third_dimension. apply xreach_a_XInv; assumption. Qed.
+
+(* pol='h' keeps products [1;1;0] of subarray 0; then spw=1, corrprods=[2]: products [0;0;1] - not [0;0;0] *)
+Example C02_switching_call_example :
+  bk (x_core (xafter_a ex_xobs xs0 [xc_pol])) = map bb [1;1;0]
+  /\ fst (xselect_a ex_xobs (xafter_a ex_xobs xs0 [xc_pol]) xc_switch) = OOk
+  /\ bk (x_core (xafter_a ex_xobs xs0 [xc_pol; xc_switch])) = map bb [0;0;1]
+  /\ keys (sel (x_core (xafter_a ex_xobs xs0 [xc_pol; xc_switch]))) = ["spw"; "subarray"; "corrprods"]%string
+  /\ x_spw (xafter_a ex_xobs xs0 [xc_pol; xc_switch]) = 1
+  /\ hits (elab_kw ex_vocab xc_switch) (doc_group DB) = true /\ lookup "reset" (elab_kw ex_vocab xc_switch) = None.
+Proof. exact ex_switch_instance. Qed.
+
+(* Names with INNER blanks: a non-empty string without comma and without blanks at its two ends is ONE item, itself
+   (so compscans='drift scan' is compscans=['drift scan']); only the blanks around a comma-separated field go. *)
+Theorem C02_inner_blanks_are_part_of_the_name : forall name, name <> EmptyString -> forallb clean [name] = true ->
+  sel_to_list (XBare (AStr name)) = Some [AStr name].
+Proof. exact single_name_kept. Qed.
+
+Example C02_inner_blanks_example :
+  sel_to_list (XBare (AStr "drift scan")) = Some [AStr "drift scan"]
+  /\ sel_to_list (XBare (AStr " noise diode ,drift scan")) = Some [AStr "noise diode"; AStr "drift scan"]
+  /\ sel_to_list (XBare (AStr "~drift scan, track")) = sel_to_list (XSeq [AStr "~drift scan"; AStr "track"])
+  /\ mapM (elab_scan blank_labels) [AStr "drift scan"; AStr "~noise diode"; AStr "driftscan"]
+     = Some [SName 2; SNot 3; SName unknown_id].
+Proof. exact ex_inner_blank_instance. Qed.
+
 (* ------------------------------------------------------------------ assumptions of everything above *)
 (* One Print Assumptions over the tuple of ALL theorems and examples of this file (individual ones are printed
    above for the principal theorems only: each costs about a second of checking time). *)
@@ -711,5 +748,9 @@ Definition C02_all_theorems :=
    C02_atomic_kw_order,
    C02_atomic_failed_call_invisible,
    C02_atomic_idempotent,
-   C02_atomic_example).
+   C02_atomic_example,
+   C02_switching_call_with_third_dimension,
+   C02_switching_call_example,
+   C02_inner_blanks_are_part_of_the_name,
+   C02_inner_blanks_example).
 Print Assumptions C02_all_theorems.
